@@ -33,6 +33,11 @@ CLAIMED = {
    note="Trusted as C02. Known finding H-rootlink-depth is excluded from generation and checked by a dedicated witness.",
    technique="Coq proof + differential correspondence",
    design="5 C03"),
+ "C01": dict(
+   text="Coq theorems about a token-level transcription of build_matcher_tree (three nested builders, recursion on '(' as an explicit frame stack) and of the And/Or/List/Not evaluation loops: every sentence of the find grammar is accepted and the tree built has the value, complete evaluation trace and quit/prune flags of the textbook evaluation (completeness); everything accepted is a sentence (soundness); the default -print wrapper is added iff no token is an action; nothing is evaluated after -quit, for this or any later entry or starting point. Tied to /repo by in-process find runs on generated sentences and near-sentences against the extracted builder+evaluator+walk model.",
+   note="Trusted: Coq kernel, extraction, harness; truth of individual tests is an oracle computed by the harness; argv-level parsing of operands is C11's.",
+   technique="Coq proof (mutual induction over the grammar; token-stream invariant with ghost frames) + differential correspondence",
+   design="5 C01"),
 }
 ALL = ["C%02d" % i for i in range(1, 21)]
 def main():
